@@ -12,6 +12,7 @@ import (
 	"bytes"
 	"encoding/json"
 	"fmt"
+	"github.com/bluenviron/mediacommon/v2/pkg/codecs/h264"
 	"net/http"
 	"strconv"
 	"strings"
@@ -79,6 +80,7 @@ type c09Written struct {
 	u    wunit
 	k    int
 	dts  int64
+	pts  int64
 	data [][]byte
 }
 
@@ -96,6 +98,7 @@ type c09State struct {
 	writeErr   error
 	start      time.Time
 	writerDone bool
+	ext        *h264.DTSExtractor
 }
 
 // the writer's schedule: (time in ms, unit) in time order
@@ -109,6 +112,8 @@ func c09Word(cfg muxCfg, word string) []wunit {
 		u  wunit
 	}
 	var evs []ev
+	var bTop, bHole int64
+	var bTopPOC, bHolePOC int
 	for ti, t := range cfg.Tracks {
 		clock := int64(t.clock())
 		if t.video() {
@@ -129,6 +134,25 @@ func c09Word(cfg muxCfg, word string) []wunit {
 				}
 				if u.RA && u.Params == 0 {
 					u.Params = 1
+				}
+				if t.Kind == "h264b" {
+					// decode order I M b M b ...: an "M" frame is displayed after the "b" frame written right after it
+					d := step * clock / 1000
+					switch {
+					case i == 0:
+						bTop, bTopPOC, bHole = 0, 0, noHole
+						u.DTS, u.POC = 0, 0
+					case u.RA:
+						u.DTS, u.POC = bTop+d, 0
+						bTop, bTopPOC, bHole = u.DTS, 0, noHole
+					case bHole != noHole:
+						u.DTS, u.POC = bHole, bHolePOC
+						bHole = noHole
+					default:
+						bHole, bHolePOC = bTop+d, bTopPOC+2
+						u.DTS, u.POC = bTop+2*d, bTopPOC+4
+						bTop, bTopPOC = u.DTS, u.POC
+					}
 				}
 				evs = append(evs, ev{ms, u})
 			}
@@ -192,10 +216,25 @@ func c09Harness(sc c09Scen) vsched.Harness {
 						return
 					}
 					if sc.Cfg.Tracks[u.Track].video() {
-						st.written[u.Track] = append(st.written[u.Track], c09Written{u: u, dts: u.DTS, data: data})
+						dts := u.DTS
+						if sc.Cfg.Tracks[u.Track].Kind == "h264b" {
+							// the decode time the written PTS / picture order counts imply (every word starts with a key frame)
+							if st.ext == nil {
+								st.ext = &h264.DTSExtractor{}
+								st.ext.Initialize()
+							}
+							d, err := st.ext.Extract(data, u.DTS)
+							if err != nil {
+								st.writeErr = fmt.Errorf("harness: the word is not derivable: %w", err)
+								return
+							}
+							dts = d
+						}
+						st.written[u.Track] = append(st.written[u.Track], c09Written{u: u, dts: dts, pts: u.DTS, data: data})
 					} else {
 						for k := range data {
-							st.written[u.Track] = append(st.written[u.Track], c09Written{u: u, k: k, dts: u.DTS + sc.Cfg.audioSpan(sc.Cfg.Tracks[u.Track], k), data: [][]byte{data[k]}})
+							at := u.DTS + sc.Cfg.audioSpan(sc.Cfg.Tracks[u.Track], k)
+							st.written[u.Track] = append(st.written[u.Track], c09Written{u: u, k: k, dts: at, pts: at, data: [][]byte{data[k]}})
 						}
 					}
 				}
@@ -333,6 +372,9 @@ func c09Harness(sc c09Scen) vsched.Harness {
 				if strings.HasPrefix(wantKind, "aac") {
 					wantKind = "aac"
 				}
+				if wantKind == "h264b" {
+					wantKind = "h264"
+				}
 				if kind != wantKind {
 					add("track-codec", "track %d reported as %s, the muxer track is %s", i, kind, t.Kind)
 					return outcome, viols
@@ -352,7 +394,7 @@ func c09Harness(sc c09Scen) vsched.Harness {
 						ref := newTrack(t)
 						switch c := ref.Codec.(type) {
 						case *codecs.H264:
-							c.SPS, c.PPS = h264Params[p].sps, h264Params[p].pps
+							c.SPS, c.PPS = h264ParamsOf(t.Kind)[p].sps, h264ParamsOf(t.Kind)[p].pps
 						case *codecs.H265:
 							c.VPS, c.SPS, c.PPS = h265Params[p].vps, h265Params[p].sps, h265Params[p].pps
 						case *codecs.AV1:
@@ -476,18 +518,52 @@ func c09Harness(sc c09Scen) vsched.Harness {
 							wantDTS = (st.written[ti][k0+n-f.k].dts*outClock/clock - origin*outClock/leadClock)
 						}
 					}
+					if t.video() {
+						// presentation time: same origin (the first delivered leading DTS)
+						wantPTS := w.pts*outClock/clock - origin*outClock/leadClock
+						if abs64(f.d.PTS-wantPTS) > 1 {
+							add("unit-pts", "track %d (%s): unit %d delivered with PTS %d, want %d (written PTS %d, decode time %d, origin %d, in %d Hz)", i, t.Kind, n, f.d.PTS, wantPTS, w.pts, w.dts, origin, outClock)
+							break
+						}
+					}
 					if abs64(gd-wantDTS) > 1 {
 						add("unit-time", "track %d (%s): unit %d delivered with time %d, want %d (written %d minus the first delivered leading DTS %d, in %d Hz)", i, t.Kind, n, gd, wantDTS, w.dts, origin, outClock)
 						break
 					}
 					if f.d.AbsOK {
+						// the NTP time written with the first unit of the unit's segment plus the DTS distance between the two. The
+						// harness writes NTP = T0 + presentation time, so this is T0 + DTS(unit) + (PTS - DTS)(first unit of the segment);
+						// the last term is 0 unless the segment starts with a reordered-stream key frame (h264b), where every
+						// key frame of the leading track written so far is a candidate segment start.
 						base := w.dts
 						if f.k > 0 {
 							base = st.written[ti][k0+n-f.k].dts
 						}
-						wantAbs := verifT0.Add(time.Duration(base/clock)*time.Second + time.Duration(base%clock)*time.Second/time.Duration(clock))
-						if d := f.d.Abs.Sub(wantAbs); d > 2*time.Millisecond || d < -2*time.Millisecond {
-							add("absolute-time", "track %d (%s): unit %d has AbsoluteTime %s, the wall-clock time written with it is %s", i, t.Kind, n, f.d.Abs.UTC().Format(time.RFC3339Nano), wantAbs.UTC().Format(time.RFC3339Nano))
+						deltas := []int64{0}
+						lt := cfg.Tracks[leadTi]
+						if lt.Kind == "h264b" {
+							// all streams are cut at the same instant and carry the leading stream's PROGRAM-DATE-TIME: "the first unit
+							// of the unit's segment" is the leading-track key frame that opened the aligned segment (the reading C10
+							// spells out: "offset from that segment's first leading-track unit")
+							deltas = nil
+							for _, r := range st.written[leadTi] {
+								if r.u.RA {
+									deltas = append(deltas, (r.pts-r.dts)*clock/leadClock)
+								}
+							}
+						}
+						okAbs := false
+						var wantAbs time.Time
+						for _, dl := range deltas {
+							b := base + dl
+							wantAbs = verifT0.Add(time.Duration(b/clock)*time.Second + time.Duration(b%clock)*time.Second/time.Duration(clock))
+							if d := f.d.Abs.Sub(wantAbs); d <= 2*time.Millisecond && d >= -2*time.Millisecond {
+								okAbs = true
+								break
+							}
+						}
+						if !okAbs {
+							add("absolute-time", "track %d (%s): unit %d has AbsoluteTime %s, the wall-clock time written with the first unit of its segment plus the DTS distance is %s", i, t.Kind, n, f.d.Abs.UTC().Format(time.RFC3339Nano), wantAbs.UTC().Format(time.RFC3339Nano))
 							break
 						}
 					}
@@ -500,7 +576,7 @@ func c09Harness(sc c09Scen) vsched.Harness {
 
 func c09DataEqual(kind string, got, want [][]byte) bool {
 	switch kind {
-	case "h264":
+	case "h264", "h264b":
 		return dataEqual(stripAUD(got), want)
 	case "av1":
 		return dataEqual(av1StripSizes(got), want)
@@ -547,6 +623,9 @@ func c09Scens(tier string) []c09Scen {
 		mcfg("ll", false, 7, "h264", "aac44"),
 		mcfg("ll", false, 7, "h264"),
 		mcfg("ll", false, 7, "aac48"),
+		mcfg("mpegts", false, 3, "h264b", "aac44"),
+		mcfg("fmp4", false, 3, "h264b"),
+		mcfg("ll", false, 7, "aac44", "h264b"),
 	}
 	for i := range cfgs {
 		if cfgs[i].Variant == "ll" {
@@ -564,9 +643,17 @@ func c09Scens(tier string) []c09Scen {
 				if !hasVideo && word != "regular" {
 					continue
 				}
+				if cfg.Tracks[cfg.leading()].Kind == "h264b" && word == "params" {
+					continue
+				}
 				segLen := 1000
 				if word == "sparse" {
 					segLen = 1750
+				}
+				if cfg.Tracks[cfg.leading()].Kind == "h264b" {
+					// I M b M | I ...: a GOP spans 1250 ms of presentation time but the derived decode time of its key frame lags,
+					// so a segment holds two GOPs
+					segLen = 2500
 				}
 				if cfg.Variant == "mpegts" && !hasVideo {
 					segLen = 2400 // audio-only MPEG-TS needs 100 writes per segment
